@@ -4,6 +4,7 @@ CONSTANTS
  IdReqs = {}
  Batch2 = {2}
  Deviations = {"CheckpointOutsideLock"}
+ FailChoices = {{}}
  MaxHist = 100
  defaultInitValue = 0
 ACTION_CONSTRAINT GateGrain
